@@ -1,6 +1,8 @@
 import XmpModel.Basic
 import XmpModel.Gen.Depackers
 import XmpModel.Md5
+import XmpModel.Lzw
+import XmpModel.PowerPacker
 /-!
 # Container layer of the built-in depackers (model for C08)
 
@@ -15,6 +17,8 @@ What is modelled (mirrors the C that exists, entropy decoders are parameters):
   excluded members), stored methods, RLE90 (`arc_unrle90_block`, fully modelled), CRC-16 gate;
 * member selection of the zip / LHA / ArcFS walks on the parsed member list, zip central-directory
   walk on bytes (`zipMembers`);
+* `decrunch_compress` completely (`XmpModel.Lzw`: header, LZW decoder) and `decrunch_pp` completely
+  (`XmpModel.PowerPacker`: header checks, bit reader, literal runs and matches);
 * `hio_reopen_mem` (empty output refused) and the pipeline `loadByPath` = loader ∘ decrunch with the
   MD5 of the stream the loader read.
 -/
@@ -416,7 +420,7 @@ def unpackMembers (crc : Bytes → Nat) (dec : Nat → Bytes → Option Bytes) (
 def sigAt (f : Bytes) (i : Nat) (a b c d : Nat) : Bool :=
   bAt f i == a && bAt f (i+1) == b && bAt f (i+2) == c && bAt f (i+3) == d
 
-/-- search the end-of-central-directory record backwards -/
+/-- plain backward search for the end-of-central-directory record (specification of `locateEocd`) -/
 def findEocd (f : Bytes) : Nat → Option Nat
   | 0 => if sigAt f 0 0x50 0x4b 5 6 then some 0 else none
   | i + 1 => if sigAt f (i + 1) 0x50 0x4b 5 6 then some (i + 1) else findEocd f i
@@ -444,10 +448,31 @@ def zipCdEntries (f : Bytes) : Nat → Nat → List ZipEntry
         crc := u32At f (ofs + 16), csize := u32At f (ofs + 20), usize := u32At f (ofs + 24),
         extAttr := u32At f (ofs + 38), localOfs := u32At f (ofs + 42) } :: zipCdEntries f n (ofs + 46 + nl + el + cl)
 
+/-- `for (i = n - 4; i >= 0; --i)` of `mz_zip_reader_locate_header_sig` over the window that starts at `cur`:
+    the highest of the `k` candidate offsets with the signature and a whole 22-byte record behind it -/
+def scanWin (f : Bytes) (cur : Nat) : Nat → Option Nat
+  | 0 => none
+  | k + 1 =>
+    if sigAt f (cur + k) 0x50 0x4b 5 6 && decide (cur + k + 22 ≤ f.length) then some (cur + k)
+    else scanWin f cur k
+
+/-- the window loop of `mz_zip_reader_locate_header_sig` (as fixed in /repo 956fc91: `cur - 4093` is clamped at 0):
+    4096-byte windows from the end of the file, consecutive windows overlap by 3 bytes, give up at offset 0 or
+    once 65535 + 22 bytes from the end have been searched -/
+def locateGo (f : Bytes) : Nat → Nat → Option Nat
+  | 0, _ => none
+  | fuel + 1, cur =>
+    match scanWin f cur (min 4096 (f.length - cur) - 3) with
+    | some p => some p
+    | none => if cur = 0 ∨ f.length - cur ≥ 65535 + 22 then none else locateGo f fuel (cur - 4093)
+
+/-- `mz_zip_reader_locate_header_sig(pZip, END_OF_CENTRAL_DIR_SIG, 22, &ofs)` -/
+def locateEocd (f : Bytes) : Option Nat :=
+  if f.length < 22 then none else locateGo f (f.length / 4093 + 2) (f.length - 4096)
+
 /-- central directory entries (no zip64 here: those archives are outside the byte-level model) -/
 def zipEntries (f : Bytes) : Option (List ZipEntry) :=
-  if f.length < 22 then none else
-  match findEocd f (f.length - 22) with
+  match locateEocd f with
   | none => none
   | some e => some (zipCdEntries f (u16At f (e + 10)) (u32At f (e + 16)))
 
@@ -495,6 +520,8 @@ def decrunch (env : Env) (file : Bytes) : Option Bytes :=
   | none => some file
   | some "gzip" => reopenMem (gunzip env.crc32 env.inflate file)
   | some "arc" => reopenMem (arcRead env.crc16 env.arcDec file)
+  | some "compress" => reopenMem (Lzw.unlzw file)          -- fully modelled (XmpModel.Lzw), no parameter
+  | some "pp" => reopenMem (PowerPacker.decrunchPP file)   -- fully modelled (XmpModel.PowerPacker)
   | some "zip" => reopenMem (unzip (fun b => (env.crc32 b).toNat) (fun m c => if m = 8 then env.inflate c else none) file)
   | some n => reopenMem (env.other n file)
 
